@@ -90,6 +90,37 @@ func (w *world) apply(op WOp) {
 		}
 	case "del":
 		w.delete(op)
+	case "delall", "restore":
+		// a batch that empties the trie, or one that returns it to exactly the content of the checkpoint
+		target := map[string]refwmpt.Entry{}
+		if op.K == "restore" {
+			if w.cp == nil {
+				return
+			}
+			target = w.cp.model
+			w.stats.Inc("probe.batch-returns-to-checkpoint-content")
+		} else {
+			w.stats.Inc("probe.batch-deletes-everything")
+		}
+		idx := map[string]int{}
+		for i := range w.keys {
+			idx[string(w.keys[i])] = i
+		}
+		for _, e := range refwmpt.Sorted(w.model) {
+			if _, keep := target[e.Key]; !keep && w.v == nil {
+				w.delete(WOp{K: "del", I: idx[e.Key], N: op.N})
+			}
+		}
+		var tk []string
+		for k := range target {
+			tk = append(tk, k)
+		}
+		sort.Strings(tk)
+		for _, k := range tk {
+			if cur, ok := w.model[k]; (!ok || !bytes.Equal(cur.Value, target[k].Value)) && w.v == nil {
+				w.update(idx[k], target[k].Value, "restore")
+			}
+		}
 	case "root":
 		w.readRoot()
 	case "commit":
@@ -225,9 +256,8 @@ func (w *world) readRoot() {
 }
 
 func (w *world) commit(op WOp) {
-	if w.has("C13") && w.cp != nil && w.afterCP >= 1 {
-		return // exactly one commit between checkpoint and rollback
-	}
+	// C13: further commits under a checkpoint are legal history (the checkpoint is abandoned: a rollback is
+	// only executed and judged when exactly one commit followed the latest SaveRoot, see rollback)
 	level := levels[((op.N%len(levels))+len(levels))%len(levels)]
 	var before map[string]bool
 	if w.has("C13") && w.cp != nil {
@@ -298,6 +328,7 @@ func (w *world) commit(op WOp) {
 	}
 	if w.has("C13") && w.cp != nil {
 		w.afterCP++
+		w.gcSinceB = 0
 		w.keysBeforeB = before
 		w.keysAfterB = w.storeKeys()
 	}
@@ -383,10 +414,7 @@ func (w *world) checkReopen(get func([]byte) ([]byte, error), rec *commitRec, wh
 
 func (w *world) gc() {
 	if w.has("C13") && w.cp != nil && w.afterCP >= 1 {
-		if w.gcSinceB >= 1 {
-			return // at most one GC pass between the rolled-back commit and the rollback
-		}
-		w.gcSinceB++
+		w.gcSinceB++ // more than one pass between a commit and its rollback is outside C13's quantifier (see rollback)
 	}
 	var err error
 	if w.guard("DeleteNodes", func() { err = w.t.DeleteNodes() }) {
